@@ -135,6 +135,9 @@ Section WithAddresses.
   (* addresses handed out by the allocator / thunk pool / link environment: for a section head,
      a function or an import, by item index *)
   Variable base : nat -> Z.
+  (* addresses of the labels of the label-holding function, as the executing engine defines them
+     once the function is prepared for execution *)
+  Variable lab : nat -> Z.
 
   Definition addr_of (all : list item) (i : nat) : Z :=
     match nth_error all i with
@@ -172,8 +175,9 @@ Section WithAddresses.
     | ELoad _ => 0                     (* never evaluated at link: see load_check *)
     end.
 
-  (* a byte of memory after load+link: Some b, or None where nothing is specified (label
-     references are engine-specific; the padding of an x87 long double stored by value) *)
+  (* a byte of memory after load+link (and, for label references, after the function was prepared
+     for execution): Some b, or None where nothing is specified (the padding of an x87 long double
+     stored by value) *)
   Definition known (l : list Z) : list (option Z) := map Some l.
 
   Definition content (all : list item) (it : item) : list (option Z) :=
@@ -181,7 +185,8 @@ Section WithAddresses.
     | IData _ t els => known (flat_map (le_bytes (tsize t)) els)
     | IBss _ len => repeat (Some 0) len
     | IRef _ target disp => known (le_bytes 8 (u64 (addr_of all target + disp)))
-    | ILref _ _ _ _ => repeat None 8
+    | ILref _ l1 None disp => known (le_bytes 8 (u64 (lab l1 + disp)))
+    | ILref _ l1 (Some l2) disp => known (le_bytes 8 (u64 (lab l1 - lab l2 + disp)))
     | IExpr _ fn =>
         match nth_error all fn with
         | Some (IFunc TLD body) => known (le_bytes 10 (eval all body)) ++ repeat None 6
